@@ -535,6 +535,8 @@ def makeevenCIJ(n, k, sz_cl, seed=None):
     rng = get_rng(seed)
     # compute number of hierarchical levels and adjust cluster size
     mx_lvl = int(np.floor(np.log2(n)))
+    if mx_lvl < 1:
+        raise BCTParamError('makeevenCIJ needs at least one hierarchical level (n >= 2)')
     sz_cl -= 1
 
     # make a stupid little template
@@ -612,6 +614,8 @@ def makefractalCIJ(mx_lvl, E, sz_cl, seed=None):
     # make a stupid little template
     t = np.ones((2, 2)) * 2
 
+    if mx_lvl < 1:
+        raise BCTParamError('makefractalCIJ needs at least one hierarchical level (mx_lvl >= 1)')
     # compute N and cluster size
     n = 2**mx_lvl
     sz_cl -= 1
